@@ -2,6 +2,8 @@
 (***************************************************************************)
 (* Judge for paths and conversions (C05, C10).  Data!Cases[c].kind is      *)
 (*  "linear"   [N, path]              returned linear path is well formed  *)
+(*  "linear_valid" [N, path]         positions exist at each step (an explicit edge path of a disconnected network *)
+(*                                   legitimately leaves pieces uncontracted at path level)                      *)
 (*  "ssa"      [N, path]              returned ssa path is well formed     *)
 (*  "tree"     [N, ch]                children (seq <<p,l,r>>) complete    *)
 (*  "lin2ssa"  [N, path, got]         got = LinToSsa(path)  (steps as sets)*)
@@ -33,6 +35,8 @@ Clause(k) ==
             IF ~r[1] THEN "position-does-not-exist-or-repeated"
             ELSE IF Len(r[2]) # 1 THEN "does-not-end-in-single-tensor"
             ELSE IF r[2][1] # 0..(k.N - 1) THEN "not-all-inputs-consumed" ELSE "ok"
+      [] k.kind = "linear_valid" ->      \* every step names existing, distinct positions (completeness not demanded)
+            IF RunLinear(k.N, k.path)[1] THEN "ok" ELSE "position-does-not-exist-or-repeated"
       [] k.kind = "ssa" ->
             LET r == RunSsa(k.N, k.path) IN
             IF ~r[1] THEN "id-not-alive-or-repeated"
